@@ -13,12 +13,13 @@ VARIABLES phase,      \* "Fresh" | "StartFailed" | "Started"   (current instance
           keyOut,     \* 1 once finish() has returned a key on the current instance
           finTried,   \* a finish() was entered and raised
           msgs,       \* history counter: start() messages returned by the current instance
-          keys        \* history counter: keys returned by the current instance
+          keys,       \* history counter: keys returned by the current instance
+          touched     \* an operation the statement does not name (a public method discovered on the class) was called
 
-vars == <<phase, restored, keyOut, finTried, msgs, keys>>
+vars == <<phase, restored, keyOut, finTried, msgs, keys, touched>>
 
 Init == /\ phase = "Fresh" /\ restored = FALSE /\ keyOut = 0 /\ finTried = FALSE
-        /\ msgs = 0 /\ keys = 0
+        /\ msgs = 0 /\ keys = 0 /\ touched = FALSE
 
 Same == UNCHANGED vars
 
@@ -26,69 +27,71 @@ Same == UNCHANGED vars
 Start_Msg ==          \* required on a fresh instance; allowed after a failed start
     /\ phase \in {"Fresh", "StartFailed"} /\ ~restored
     /\ phase' = "Started" /\ msgs' = msgs + 1
-    /\ UNCHANGED <<restored, keyOut, finTried, keys>>
-Start_OnceErr ==      \* required once started / restored; allowed after a failed start
-    /\ phase \in {"Started", "StartFailed"}
+    /\ UNCHANGED <<restored, keyOut, finTried, keys, touched>>
+Start_OnceErr ==      \* required once started / restored; allowed after a failed start or an unnamed operation
+    /\ (phase \in {"Started", "StartFailed"} \/ touched)
     /\ Same
-Start_OtherErr ==     \* only a start that already failed may keep failing otherwise
-    /\ phase = "StartFailed"
+Start_OtherErr ==     \* only a start that already failed (or an instance an unnamed operation touched) may fail otherwise
+    /\ (phase = "StartFailed" \/ (touched /\ phase = "Fresh"))
     /\ Same
 
 (* ---- start() while the entropy function raises ---- *)
 StartRaise_OtherErr ==
     /\ phase \in {"Fresh", "StartFailed"}
     /\ phase' = "StartFailed"
-    /\ UNCHANGED <<restored, keyOut, finTried, msgs, keys>>
+    /\ UNCHANGED <<restored, keyOut, finTried, msgs, keys, touched>>
 StartRaise_OnceErr ==
-    /\ phase \in {"Started", "StartFailed"}
+    /\ (phase \in {"Started", "StartFailed"} \/ touched)
     /\ Same
 
 (* ---- finish(m), m a message for which the definition yields a key ---- *)
 FinValid_Key ==
     /\ phase = "Started" /\ keyOut = 0
     /\ keyOut' = 1 /\ keys' = keys + 1
-    /\ UNCHANGED <<phase, restored, finTried, msgs>>
+    /\ UNCHANGED <<phase, restored, finTried, msgs, touched>>
 FinValid_OnceErr ==   \* required when a key is out; allowed whenever no key can be given
     /\ \/ keyOut = 1
        \/ phase # "Started"
        \/ finTried
+       \/ touched
     /\ finTried' = (IF keyOut = 1 THEN finTried ELSE TRUE)
-    /\ UNCHANGED <<phase, restored, keyOut, msgs, keys>>
+    /\ UNCHANGED <<phase, restored, keyOut, msgs, keys, touched>>
 FinValid_OtherErr ==  \* never when a key is out (then OnlyCallFinishOnce is required)
     /\ keyOut = 0
     /\ finTried' = TRUE
-    /\ UNCHANGED <<phase, restored, keyOut, msgs, keys>>
+    /\ UNCHANGED <<phase, restored, keyOut, msgs, keys, touched>>
 
 (* ---- finish(m), m a message the definition refuses ---- *)
 FinBad_OnceErr ==
     /\ \/ keyOut = 1
        \/ finTried
        \/ phase # "Started"
+       \/ touched
     /\ finTried' = (IF keyOut = 1 THEN finTried ELSE TRUE)
-    /\ UNCHANGED <<phase, restored, keyOut, msgs, keys>>
+    /\ UNCHANGED <<phase, restored, keyOut, msgs, keys, touched>>
 FinBad_OtherErr ==
     /\ keyOut = 0
     /\ finTried' = TRUE
-    /\ UNCHANGED <<phase, restored, keyOut, msgs, keys>>
+    /\ UNCHANGED <<phase, restored, keyOut, msgs, keys, touched>>
 
 (* ---- serialize() ---- *)
 Ser_TooEarly ==
-    /\ phase \in {"Fresh", "StartFailed"}
+    /\ (phase \in {"Fresh", "StartFailed"} \/ touched)
     /\ Same
 Ser_Blob ==
     /\ phase \in {"Started", "StartFailed"}
     /\ Same
 Ser_OtherErr ==
-    /\ phase = "StartFailed"
+    /\ (phase = "StartFailed" \/ touched)
     /\ Same
 
 (* ---- from_serialized(blob of the current instance), same class: continue on the result ---- *)
 Restore_Inst ==
     /\ phase \in {"Started", "StartFailed"}
     /\ phase' = "Started" /\ restored' = TRUE /\ keyOut' = 0 /\ finTried' = FALSE
-    /\ msgs' = 0 /\ keys' = 0
-Restore_Err ==        \* only the state of a failed start may be refused
-    /\ phase = "StartFailed"
+    /\ msgs' = 0 /\ keys' = 0 /\ touched' = FALSE
+Restore_Err ==        \* only the state of a failed start (or of a touched instance) may be refused
+    /\ (phase = "StartFailed" \/ touched)
     /\ Same
 
 (* ---- from_serialized(blob) under another class: must raise, current instance kept ---- *)
@@ -96,12 +99,19 @@ RestoreWrong_Err ==
     /\ phase \in {"Started", "StartFailed"}
     /\ Same
 
+(* ---- any other public zero-argument method found on the class (the statement says "any sequence of calls"): ---- *)
+(* ---- every outcome is allowed, nothing it does may re-arm the instance; afterwards refusals are allowed   ---- *)
+Other_Any ==
+    /\ touched' = TRUE
+    /\ UNCHANGED <<phase, restored, keyOut, finTried, msgs, keys>>
+
 Next == \/ Start_Msg \/ Start_OnceErr \/ Start_OtherErr
         \/ StartRaise_OtherErr \/ StartRaise_OnceErr
         \/ FinValid_Key \/ FinValid_OnceErr \/ FinValid_OtherErr
         \/ FinBad_OnceErr \/ FinBad_OtherErr
         \/ Ser_TooEarly \/ Ser_Blob \/ Ser_OtherErr
         \/ Restore_Inst \/ Restore_Err \/ RestoreWrong_Err
+        \/ Other_Any
 
 Spec == Init /\ [][Next]_vars
 
@@ -111,5 +121,5 @@ NoMessageRestored  == restored => msgs = 0
 AtMostOneKey       == keys <= 1
 KeyNeedsStart      == keys = 1 => phase = "Started"
 TypeOK == /\ phase \in {"Fresh", "StartFailed", "Started"} /\ restored \in BOOLEAN
-          /\ keyOut \in {0, 1} /\ finTried \in BOOLEAN /\ msgs \in 0..2 /\ keys \in 0..2
+          /\ keyOut \in {0, 1} /\ finTried \in BOOLEAN /\ msgs \in 0..2 /\ keys \in 0..2 /\ touched \in BOOLEAN
 =============================================================================
